@@ -833,9 +833,11 @@ func judgeConcurrent(w *proxyWorld, res *Result) {
 			}
 		}
 	}
+	condEvicts := 0 // resources whose stored entry disappears while a conditional request for it is at the origin
 	for i := range p.Res {
 		if p.Res[i].EvictOnCond {
 			evicts++
+			condEvicts++
 		}
 	}
 	// C09.a / C05.b / C05.c / C05.d: every surviving client gets the origin's answer
@@ -912,7 +914,7 @@ func judgeConcurrent(w *proxyWorld, res *Result) {
 			}
 			phases[ph] = append(phases[ph], o)
 		}
-		if evicts > 0 || !allOriginOK {
+		if evicts > condEvicts || !allOriginOK {
 			continue
 		}
 		res.Evals++
@@ -922,6 +924,19 @@ func judgeConcurrent(w *proxyWorld, res *Result) {
 			// client that happens to lead it, so a disconnect of a leader or of a follower changes
 			// nothing for the others - including how often the origin is asked.
 			allowed := 1
+			if r.EvictOnCond {
+				// The stale entry is gone when the 304 arrives: that revalidation renewed nothing and the
+				// resource has to be fetched once more - once, for everybody who waits on the shared fetch,
+				// not once by each of them.
+				for _, o := range os {
+					if o.Cond {
+						allowed++
+					}
+				}
+				if len(os) > 1 {
+					res.Probes["refetch_after_inapplicable_304"]++
+				}
+			}
 			if len(os) > allowed {
 				var ds []string
 				for _, o := range os {
